@@ -50,11 +50,18 @@ mod verif_c14_bitset {
         kani::cover!(v1 / 512 > v2 / 512);
         kani::cover!(v1 / 512 == v2 / 512 && v1 != v2);
     }
-    //@harness unit=U14.2r fns=BitSet::iter_ranges,BitSetRangeIter::next,BitSetRangeIter::next_range,BitSetRangeIter::move_to_next_page,BitPage::iter_ranges timeout=1800 bound="sets of 2 members anywhere in 3 pages (incl. a run ending at a page edge followed by an absent page)" note="iter_ranges yields exactly the maximal runs of members, ascending: ranges merge across a page boundary only when the values are numerically adjacent"
+    //@harness unit=U14.2r fns=BitSet::iter_ranges,BitSetRangeIter::next,BitSetRangeIter::next_range,BitSetRangeIter::move_to_next_page,BitPage::iter_ranges timeout=1800 bound="sets of 2 members at the first / last offset of 3 pages (incl. a run ending at a page edge followed by an absent page)" note="iter_ranges yields exactly the maximal runs of members, ascending: ranges merge across a page boundary only when the values are numerically adjacent"
     #[kani::proof]
     #[kani::unwind(12)]
     fn bitset_iter_ranges_two_members() {
-        let (v1, v2) = (any_val(), any_val());
+        // members at page edges only (offset 0 or 511 of pages 0..3): the in-page scan is the page layer's business; what
+        // BitSetRangeIter adds is the merging of a run that ends at a page edge with the first run of the NEXT STORED page
+        fn edge_val() -> u32 {
+            let major: u32 = kani::any();
+            kani::assume(major < 3);
+            if kani::any() { major * 512 + 511 } else { major * 512 }
+        }
+        let (v1, v2) = (edge_val(), edge_val());
         let s = build(v1, v2);
         let (lo, hi) = if v1 <= v2 { (v1, v2) } else { (v2, v1) };
         let mut it = s.iter_ranges();
